@@ -111,9 +111,14 @@ def make_pairs(tier, rng):
     for prog, prov, kind in base_programs(rng, 400 if thorough else 90):
         for p2, tag in failing_variants(prog, rng):
             for mode in (("sync", "async") if thorough else (rng.choice(["sync", "async"]),)):
-                j = gen.job(0, p2, prov, mode=mode)
+                sel = None
+                outs_all = sorted({o2 for _, n2 in IR.all_nodes(p2) if "/" not in _ for o2 in n2["outputs"][: n2["ndata"]]})
+                if outs_all and rng.random() < 0.35:
+                    sel = rng.sample(outs_all, rng.randint(1, min(2, len(outs_all))))
+                j = gen.job(0, p2, prov, mode=mode, select=sel)
                 j["eh"] = rng.choice(["continue", "continue", "raise"])
-                o, _, _ = predict.try_real(j, error_handling=j["eh"])
+                j["om"] = rng.choice(["ignore", "error", "warn"]) if sel else "ignore"
+                o, _, _ = predict.try_real(j, error_handling=j["eh"], on_missing=j["om"])
                 if "rejected" in o:
                     continue
                 pairs.append((j, f"{kind}/{tag}/{j['eh']}"))
@@ -125,10 +130,11 @@ def make_pairs(tier, rng):
 def evaluate(ctx, pairs):
     reals = {}
     for eh in ("continue", "raise"):
-        grp = [(j, t) for j, t in pairs if j.get("eh", "continue") == eh]
-        if grp:
-            _, r = enginecheck.evaluate(ctx, grp, PID, compare, real_kw={"error_handling": eh})
-            reals.update(r)
+        for om in ("ignore", "warn", "error"):
+            grp = [(j, t) for j, t in pairs if j.get("eh", "continue") == eh and j.get("om", "ignore") == om]
+            if grp:
+                _, r = enginecheck.evaluate(ctx, grp, PID, compare, real_kw={"error_handling": eh, "on_missing": om})
+                reals.update(r)
     return reals
 
 
